@@ -8,8 +8,9 @@ DRIVERS = {'channel': L.DRIVER}
 TB = ['Coq 8.16.1 kernel; vm_compute for the exhaustive sweep over the 326 valid queue words (Word.v: sweep) and for the skeleton lemmas',
       'translator/channel.py: SLOTS/BITS/MASK, get/set and the pure expressions of enqueue/dequeue TRANSLATED to Gallina (u16 wrap at every '
       'operation) - the word lemmas are proved about the generated code; skeletons/orderings/queue roles regenerated and pinned in channel/Skeleton.v',
-      'memory model of the C06 theorems: SC interleaving of shim-level operations (loads, weak CASes with spurious failures, cell accesses); '
-      'weak-memory behaviour is covered by C07/C08 (view semantics: ownership invariant, no race, no panic)',
+      'memory models: C06_fifo/_effects_ordered/_drop_only_when_full/_empty_only_when_empty - SC interleaving of shim-level operations (loads, weak '
+      'CASes with spurious failures, cell accesses); C06_fifo_ra/_gives_up_on_zero_ra_partial - view-based release/acquire + relaxed semantics reading '
+      'the extracted orderings (RC11-style, no (po U rf) cycles; every write to the queue words is an RMW)',
       'lock-step correspondence: cfg(sighook_verif) shim in /repo + harness/src/sched.rs + ls_channel driver; extraction (ExtrOcamlBasic) + OCaml driver',
       'modelled, not verified: Option::take, array indexing, UnsafeCell, the drop glue of [UnsafeCell<Option<T>>; 5]']
 ASSUME = ['payload values are abstract (naturals); the channel never inspects them',
